@@ -212,7 +212,8 @@ def make_wrapper(
                         list(map(self._configurable.remove, vals))
                         object.__setattr__(self, "_reuse_pt", self._reuse_pt + 1)
                         return True
-                    except Unchangable:
+                    except (Unchangable, KeyError):
+                        # KeyError: the flag was already removed in this transaction
                         self.rollback(entry_point)
                 else:
                     a = getattr(self._raw_pkg, attr)
